@@ -20,8 +20,8 @@ def J(engine, variant="san", quick=None, thorough=None, **kw):
 PROPERTIES = {
     "C05": {
         "rule": "rapidcheck: triangle + query point constructed per Voronoi region (3 vertices, 3 edges, interior), aspect "
-                "ratios to 1:1000, scale 1e-12..1e6 (picometre-sized features in metres to megametres), placed by a random rigid motion up to 1000 sizes from the origin; oracle = "
-                "independent feature-brute-force closest point, |p-q|^2 vs returned d2, rigid-motion invariance. A case is "
+                "ratios to 1:1000, scale 1e-12..1e6 (picometre-sized features in metres to megametres), placed by a random rigid motion up to 1000 sizes and (1/3) 1e5 - 1e10 sizes from the origin; oracle = "
+                "independent feature-brute-force closest point, |p-q|^2 vs returned d2, the designated point judged once more relative to vertex A with a tolerance that does not contain the distance to the origin, rigid-motion invariance. A case is "
                 "non-trivial when the target region is not vertex A and |a| > 10 triangle sizes; distinct = hash of the "
                 "serialised coordinates.",
         "min_nontrivial": 1000,
